@@ -565,7 +565,7 @@ class World(Domain):
     def contains(self, it, container, item):
         if isinstance(item, SymBits) and len(item.bits) == 1 and not item.prefix and isinstance(container, (list, tuple)):
             return True, ("0" in container and "1" in container)
-        if isinstance(container, AObj) and container.cls == FM:
+        if isinstance(container, AObj) and container.cls == FM and not self.real_manager:
             return True, self.is_node(item)
         return False, None
 
